@@ -3,6 +3,7 @@ import copy
 from lib import *
 
 PROP = "C08"
+PAR_OK = True
 LEVEL = "proof"
 RULE = ("pairs (reference, compared) of unrooted trees on the same 4..11 taxa (root of degree >= 3, multifurcations up to degree 6, "
         "parent slot at random positions, every branch with a dyadic length): independent random trees, the same tree twice, "
